@@ -253,10 +253,13 @@ func checkDefs() map[string]*CheckDef {
 	defs = append(defs,
 		&CheckDef{ID: "C17", Title: "Configuration values reach fields unchanged (string -> string)",
 			Runs: func(tier string) []RunSpec {
-				return []RunSpec{{Name: "string-values", Pkg: prc, Entry: "VerifC17String", Params: map[string]int{"N": tierPick(tier, 4, 5)}, MustCover: []string{"bound"}}}
+				return []RunSpec{
+					{Name: "string-values", Pkg: prc, Entry: "VerifC17String", Params: map[string]int{"N": tierPick(tier, 4, 5)}, MustCover: []string{"bound"}},
+					{Name: "scalar-family", Pkg: prc, Entry: "VerifC17Scalars", MustCover: []string{"scalars bound"}},
+				}
 			},
 			LevelText: "Bounded symbolic model checking of the real valueAware (value tag and prop shorthand), propertiesAware (prefix) and configQuote processors, Property.Unmarshall/reflectx.SetValue and strconv2.ParseAny/FormatAny: for every ASCII string of up to N bytes as the configured value, the string fields bound through value:\"${k}\", prop:\"k\", a value-tag literal and prefix:\"k\" all equal the configured string - outside five listed finding classes, each of which is reproduced natively on every run.",
-			LevelNote: "Reduced claim: string -> string only. Integers, floats, booleans, lists, maps, nested structs and pointers are converted by viper/YAML, strconv float formatting and mapstructure's reflection, none of which is encoded (mapstructure is a contract stub: string -> string identity). Alphabet: ASCII without $ # { } [ ] ( ) and comma (placeholder/bracket syntax is C16/C19). N <= 4 (thorough 5) bytes.",
+			LevelNote: "Reduced claim: string -> string only. Integers, floats, booleans, lists, maps, nested structs and pointers are converted by viper/YAML, strconv float formatting and mapstructure's reflection, none of which is encoded (mapstructure is a contract stub: string -> string identity). Alphabet: ASCII without $ # { } [ ] ( ) and comma (placeholder/bracket syntax is C16/C19). N <= 4 (thorough 5) bytes. The additional run scalar-family executes the same glue on a fixed family of 11 concrete integers and 6 concrete floats of boundary magnitude (no symbolic arithmetic: decimal formatting and float parsing are computed natively); it is what exhibits the large-integer finding.",
 			Technique: techDefault, DesignRef: "DESIGN.md §3 C17"},
 		&CheckDef{ID: "C18", Title: "Expressions after substitution, validation after binding (glue)",
 			Runs: func(tier string) []RunSpec {
